@@ -16,6 +16,8 @@ type locState struct {
 	wthr  string
 	rvcs  map[int]vclock
 	rsite map[int]string
+	wheld []*objState         // locks held at the last write
+	rheld map[int][]*objState // locks held at the last read of each thread
 }
 
 // Acc records an access of the running thread to the location at addr and
@@ -46,6 +48,10 @@ func Acc(addr unsafe.Pointer, write bool, site string) {
 		} else {
 			report(l.wsite, l.wthr, "read-write race")
 		}
+	} else if l.wvc != nil && l.wthr != t.name && !l.wvc.leqWeak(t.vc) && disjoint(l.wheld, e.locked) {
+		// ordered, but only because a mutex that (at least) one side does not hold happened to be taken
+		// in this order: with the other order the two accesses race
+		lockReport(e, fmt.Sprintf("lock-order race: %s by %s unordered with %s by %s but for the acquisition order of a lock they do not share", site, t.name, l.wsite, l.wthr))
 	}
 	// make the prefix key sensitive to the order of conflicting accesses, so that
 	// happens-before caching stays sound even when these accesses race
@@ -62,8 +68,12 @@ func Acc(addr unsafe.Pointer, write bool, site string) {
 		for id, rv := range l.rvcs {
 			if id != t.id && !rv.leq(t.vc) {
 				report(l.rsite[id], e.threads[id].name, "write-read race")
+			} else if id != t.id && !rv.leqWeak(t.vc) && disjoint(l.rheld[id], e.locked) {
+				lockReport(e, fmt.Sprintf("lock-order race: %s by %s unordered with %s by %s but for the acquisition order of a lock they do not share", site, t.name, l.rsite[id], e.threads[id].name))
 			}
 		}
+		l.wheld = append([]*objState(nil), e.locked...)
+		l.rheld = map[int][]*objState{}
 		l.wvc = t.vc.clone()
 		l.wsite = site
 		l.wthr = t.name
@@ -72,7 +82,31 @@ func Acc(addr unsafe.Pointer, write bool, site string) {
 	} else {
 		l.rvcs[t.id] = t.vc.clone()
 		l.rsite[t.id] = site
+		if l.rheld == nil {
+			l.rheld = map[int][]*objState{}
+		}
+		l.rheld[t.id] = append([]*objState(nil), e.locked...)
 	}
+}
+
+func disjoint(a, b []*objState) bool {
+	for _, x := range a {
+		for _, y := range b {
+			if x == y {
+				return false
+			}
+		}
+	}
+	return true
+}
+
+func lockReport(e *exec, msg string) {
+	for _, r := range e.res.LockRaces {
+		if r == msg {
+			return
+		}
+	}
+	e.res.LockRaces = append(e.res.LockRaces, msg)
 }
 
 // AccOf is Acc for a typed pointer.
